@@ -739,6 +739,11 @@ class _MaintTr:
                 return 'MCInEnts' if isinstance(op, ast.In) else '(MCNot MCInEnts)'
             if isinstance(op, (ast.Is, ast.IsNot)) and ((_is_self(a) and _self_map_attr(b, 'spawn')) or (_is_self(b) and _self_map_attr(a, 'spawn'))):
                 return 'MCIsSpawn' if isinstance(op, ast.Is) else '(MCNot MCIsSpawn)'
+        if isinstance(e, ast.Attribute) and _is_self(e.value) and e.attr not in ('map', '_keys') and e.attr.isascii():
+            # round 5: a flag kept on the entity object (`self._in_map`).  The model has no such state: the condition is
+            # translated to [MCCached], which no fact of the path obligations decides (cond_abs = None), so the program
+            # passes only if nothing depends on the flag; the state census `prog_stateless` names the shape
+            return f'(MCCached {_coq_str(e.attr)})'
         raise TranslateError(f'{w}: unrecognised condition {ast.unparse(e)}')
 
     def key(self, e: ast.expr, target: bool, w: str) -> str:
